@@ -140,7 +140,9 @@ def run_case(case, rep, env):
             res, eng = runner.run(prog, conf["backend"], {k: v for k, v in conf.items() if k != "backend"})
             if isinstance(res, Exception):
                 nm = type(res).__name__
-                if nm in ("NotApplicableError", "NotImplementedError", "CircuitError"):
+                if nm in ("NotApplicableError", "NotImplementedError", "CircuitError") or \
+                        (nm == "ZeroDivisionError" and "zero probability" in str(res)):
+                    # (post-selection on an outcome the state cannot give is refused by the Fock backend)
                     rep.observe("rejected:%s:%s" % (obs.lab(), nm))
                 else:
                     rep.violation(backend + ".run", "exception:" + nm, "%s raised %s: %s" % (obs.lab(), nm, str(res)[:200]),
